@@ -255,6 +255,14 @@ static int opsMode(int argc, char** argv)
     int N = g.numberOfNodes();
     L.initializeResidual(geom, coeff, dir, threads, StencilDistributionMethod::CPU_GIVE);
     L.initializeSmoothing(geom, coeff, dir, threads, StencilDistributionMethod::CPU_TAKE);
+    const bool refinable = nr % 2 == 1 && nt % 2 == 0; // the extrapolated smoother needs a grid that has a coarse grid
+    if (refinable)
+        L.initializeExtrapolatedSmoothing(geom, coeff, dir, threads, StencilDistributionMethod::CPU_TAKE);
+    // a second level on the same shape carries the take residual
+    auto grid2 = std::make_unique<PolarGrid>(rad, ang, split);
+    auto lc2   = std::make_unique<LevelCache>(*grid2, coeff, geom, true, true);
+    Level L2(0, std::move(grid2), std::move(lc2), ExtrapolationType::NONE, false);
+    L2.initializeResidual(geom, coeff, dir, threads, StencilDistributionMethod::CPU_TAKE);
     Vector<double> x(N), rhs(N), result(N), temp(N);
     std::mt19937 gen(3);
     std::uniform_real_distribution<double> U(-1, 1);
@@ -278,6 +286,14 @@ static int opsMode(int argc, char** argv)
     dumpAll();
     fprintf(g_out, "{\"mark\":\"smootherTake\",\"reg\":%ld}\n", g_region.load());
     L.smoothing(x, rhs, temp);
+    dumpAll();
+    if (refinable) {
+        fprintf(g_out, "{\"mark\":\"xsmootherTake\",\"reg\":%ld}\n", g_region.load());
+        L.extrapolatedSmoothing(x, rhs, temp);
+        dumpAll();
+    }
+    fprintf(g_out, "{\"mark\":\"residualTake\",\"reg\":%ld}\n", g_region.load());
+    L2.computeResidual(result, rhs, x);
     g_on = false;
     dumpAll();
     fprintf(g_out, "{\"mark\":\"end\",\"reg\":%ld}\n", g_region.load());
